@@ -208,7 +208,7 @@ of the API.
 Independently of the seeded changes, `tools/coverage.sh` measures which statements
 of the library the monitors' workloads execute (the harness built with
 `-cover -coverpkg=github.com/cockroachdb/errors/...`, every monitor run once at
-the quick tier, counters merged): **96.8 % of the library's statements** (the
+the quick tier, counters merged): **97.0 % of the library's statements** (the
 repository's own suite, with its toolchain failures, leaves far more uncovered —
 which is where the round-9 agents put their changes). The first measurement
 (95.0 %) pointed at workload gaps that were then closed: `NotInDomain` /
